@@ -63,6 +63,7 @@ func genScenario(t *rapid.T, kind string) LeaseScenario {
 	case "unlockfail":
 		s.Hold10 = rapid.IntRange(0, 14).Draw(t, "hold10")
 		s.Applied = rapid.IntRange(0, 3).Draw(t, "applied") == 0
+		s.InFlight = rapid.SampledFrom([]int{0, 0, 1, 2}).Draw(t, "inFlight")
 	case "bystander":
 		s.After = rapid.Bool().Draw(t, "after")
 		s.Waiters = rapid.IntRange(0, 2).Draw(t, "others")
@@ -104,7 +105,7 @@ func recordLease(s LeaseScenario, info LeaseInfo) {
 		cl = append(cl, fmt.Sprintf("relock_applied_before_unlock:%v_create_in_flight:%v", s.After, s.HoldCreate))
 	}
 	if s.Kind == "unlockfail" {
-		cl = append(cl, fmt.Sprintf("unlockfail_delete_applied:%v", s.Applied))
+		cl = append(cl, fmt.Sprintf("unlockfail_delete_applied:%v_renewal_in_flight:%d", s.Applied, s.InFlight))
 	}
 	vstat.For("C05").Case(nt, vstat.Hash(s), func() any { return s }, cl...)
 	vstat.For("C05").AddExtra("store_samples", int64(info.Samples))
@@ -141,7 +142,7 @@ func TestC05Rapid(t *testing.T) {
 		races := 0
 		for i := 0; i < n; i++ {
 			kind := rapid.SampledFrom([]string{"hold", "hold", "hold", "death", "death", "unlockrace", "relock", "unlockfail", "handoff", "handoff", "waithold", "bystander"}).Draw(rt, "kind")
-			if kind == "unlockrace" || kind == "bystander" || kind == "relock" {
+			if kind == "unlockrace" || kind == "bystander" || kind == "relock" || kind == "unlockfail" {
 				if races >= 3 { // every such scenario parks one worker of the timer pool for a while
 					kind = "hold"
 				}
@@ -181,6 +182,9 @@ func TestC05EveryK(t *testing.T) {
 	batch = append(batch, LeaseScenario{Kind: "relock", LeaseMs: lease, After: true, HoldCreate: true}, LeaseScenario{Kind: "relock", LeaseMs: lease, After: false, HoldCreate: false})
 	for _, h := range []int{2, 7} {
 		batch = append(batch, LeaseScenario{Kind: "unlockfail", LeaseMs: lease, Hold10: h}, LeaseScenario{Kind: "unlockfail", LeaseMs: lease, Hold10: h + 4, Applied: true})
+	}
+	for _, inf := range []int{1, 2} {
+		batch = append(batch, LeaseScenario{Kind: "unlockfail", LeaseMs: lease, InFlight: inf})
 	}
 	for _, acq := range []string{"lockctx", "trylock"} {
 		batch = append(batch, LeaseScenario{Kind: "hold", LeaseMs: lease, Periods: 4, Acquire: acq})
